@@ -922,6 +922,8 @@ class SimOs(_Facade):
 
     def listdir(self, path='.'):
         fs = self._w.fs
+        if isinstance(path, int):
+            path = self._fd(path).path
         return self._sys('listdir', lambda limit: fs.listdir(path), fs.norm(path))
 
     def scandir(self, path='.'):
@@ -993,6 +995,19 @@ class SimOs(_Facade):
 
     def utime(self, path, times=None, *, ns=None, **kw):
         fs = self._w.fs
+        if isinstance(path, int):                     # os.utime supports descriptors
+            fdesc = self._fd(path)
+
+            def dofd(limit):
+                if ns is not None:
+                    t = ns
+                elif times is not None:
+                    t = (int(times[0] * 1e9), int(times[1] * 1e9))
+                else:
+                    t = (fs.stamp(), fs.stamp())
+                fdesc.inode.mtime_ns = t[1]
+                return L(fdesc.inode.ino, None)
+            return self._sys('utime', dofd, fdesc.path, mutating=True)
 
         def do(limit):
             if ns is not None:
@@ -1006,10 +1021,19 @@ class SimOs(_Facade):
 
     def chmod(self, path, mode, **kw):
         fs = self._w.fs
+        if isinstance(path, int):
+            fdesc = self._fd(path)
+
+            def dofd(limit):
+                fdesc.inode.mode = mode & 0o7777
+                return L(fdesc.inode.ino, None)
+            return self._sys('chmod', dofd, fdesc.path, mutating=True)
         return self._sys('chmod', lambda limit: L(fs.chmod(path, mode).ino, None), fs.norm(path), mutating=True)
 
     def truncate(self, path, length):
         fs = self._w.fs
+        if isinstance(path, int):
+            return self.ftruncate(path, length)
 
         def do(limit):
             node = fs.lookup(path)
@@ -1096,6 +1120,9 @@ class SimOs(_Facade):
         return self._sys('fsync', lambda limit: L(fdesc.inode.ino, None), fdesc.path)
 
     fdatasync = fsync
+    supports_fd = frozenset()          # membership tests only; the fd forms above are implemented
+    supports_follow_symlinks = frozenset()
+    supports_dir_fd = frozenset()
 
     def ftruncate(self, fd, length):
         fdesc = self._fd(fd)
